@@ -165,9 +165,13 @@ def run(ctx, model_ok):
         'xs := ["a", "b"]\nfor [i, v] in xs {\n    print($"${v}${ $"${v}" }")\n}\n',
         'a := "1"\nb := "2"\nfn f(p) {\n    return $"[${p}]"\n}\nprint(f(a) + f(b) + $"${f($"${a}")}${f($"${b}")}")\n',
     )]
-    # what those five programs print (escapes are spellings, slots are program text)
+    # a character written as `\xHH` is that character and nothing else: a quote, a dollar, a backslash, a brace spelt in hex
+    # neither ends the literal nor starts a slot nor escapes what follows
+    bases.append(("interp", 'x := "v"\nprint("q\\x22q")\nprint("d\\x24{x}")\nprint($"d\\x24{x}${x}")\nprint("b\\x5cn")\nprint($"\\x7b${x}\\x7d")\n'
+                            'print($"${x}\\x22${x}\\x24")\nprint("\\x5c\\x22"->len())\n'))
+    # what those six programs print (escapes are spellings, slots are program text)
     interp_expected = ["héllo, wörld!\n", "1: <x>\n2: <y>\n3: <x> <y>\n", "A: hello world\nA: hello world\nAB world C world\ntrue\n7\n",
-                       "aa\nbb\n", "[1][2][1][2]\n"]
+                       "aa\nbb\n", "[1][2][1][2]\n", 'q"q\nd${x}\nd${x}v\nb\\n\n{v}\nv"v$\n2\n']
     ib = [s for l, s in bases if l == "interp"]
     for src, want, r in zip(ib, interp_expected, core.cli_batch(ib)):
         if (r["stdout"], r["status"]) != (want, "0"):
@@ -184,6 +188,26 @@ def run(ctx, model_ok):
     if (r["stdout"], r["status"]) != (kw_want, "0"):
         ctx.violation("C09: a name that begins with a keyword, written first in a statement after a closing brace, is not read as a "
                       f"name: expected {kw_want!r}", kw_src, {"cli": r})
+    # any AMOUNT of layout is still layout: very long runs of blank lines, of `;`, of comment lines, of blanks — between
+    # statements, after a continuation token, at the start and at the end of the file (run through the command line only)
+    big = 60000 if thorough else 30000
+    runs_ = [("\n" * big, "blank lines"), (";" * big, "semicolons"), ("# c\n" * (big // 3), "comment lines"), (" " * big, "blanks"),
+             ("\n;" * (big // 2), "mixed terminators"), ("\t \n" * (big // 3), "blank lines with blanks")]
+    long_srcs = []
+    for filler, what in runs_:
+        nl = "" if filler.endswith("\n") or filler.endswith(";") else "\n"
+        long_srcs.append((what + " between statements", "x := 1\n" + filler + nl + "print(x)\n", "1\n"))
+        long_srcs.append((what + " at the start and the end", filler + nl + "print(2)\n" + filler, "2\n"))
+        if ";" not in filler:
+            long_srcs.append((what + " after a continuation token", "x := 1 +" + filler + nl + "2\nprint(x)\n", "3\n"))
+            long_srcs.append((what + " inside brackets", "xs := [1," + filler + nl + "2]\nprint(xs[1])\n", "2\n"))
+    for (what, src, want), r in zip(long_srcs, core.cli_batch([l[1] for l in long_srcs])):
+        ctx.nontrivial(("long-layout", what))
+        ctx.count("long_layout:cli", 1)
+        if (r["stdout"], r["status"]) != (want, "0"):
+            ctx.violation(f"C09: a long run of layout ({what}, {len(src)} characters in all) changed behaviour: expected {want!r} and "
+                          "success", src, {"cli": {k: v[:300] for k, v in r.items()}})
+            break
     seen = set()
     bases = [(l, s) for l, s in bases if not (s in seen or seen.add(s))]
     # the text of an interpolation slot is program text too: blanks after `${` (the layout engine above leaves literals alone)
